@@ -103,7 +103,7 @@ flush_before_rename!(c10_csv_flush_3, 3, false);
 flush_before_rename!(c10_csv_flush_3_short, 3, true);
 
 // C02 names + C01 totals: real formatting, no faults
-//@ id=C02,C01 tier=quick name=c02_csv_names timeout=2400 role=names bound=CsvDump,start/last-heights-from-{0,7,12,345}x{0,9,10,99999} mem=20 fn=CsvDump::on_start,CsvDump::on_complete
+//@ id=C02,C01 tier=thorough name=c02_csv_names timeout=5400 role=names bound=CsvDump,start/last-heights-from-{0,7,12,345}x{0,9,10,99999} mem=20 fn=CsvDump::on_start,CsvDump::on_complete
 #[kani::proof]
 #[kani::unwind(48)]
 fn c02_csv_names() {
